@@ -31,6 +31,9 @@ var (
 	SimDurationType = &SchemaType{Type: "SimDurationType", ValueType: "SimDurationValue", CastToType: "time.Duration", CastFromType: "time.Duration"}
 )
 
+// SimInt32Override is a schema_types entry backed by the harness type SimInt32Type.
+var SimInt32Override = SchemaType{Type: "SimInt32Type", ValueType: "SimInt32Value", CastToType: "int32", CastFromType: "int32"}
+
 // Corpus returns the quick-tier program.
 func Corpus() *Program {
 	p := &Program{File: "p.proto", Package: "p"}
@@ -186,11 +189,11 @@ func Corpus() *Program {
 	p.Config = Config{
 		Types: []string{"Scalars", "Temporal", "Collections", "Nesting", "Oneofs", "Embedding", "EmbedOneof",
 			"EmbedDeep", "Naming", "Empties", "Sink", "DeepNest", "Interleave"},
-		DurationCustomType:          DurationCastName,
-		TimeType:                    SimTimeType,
-		DurationType:                SimDurationType,
-		ExcludeFields:               []string{"Naming.Secret", "Naming.SecretList", "NamedLeaf.Hidden", "Naming.Other.Skip", "EmbP.EpHidden", "Nesting.PtrList.Attrs", "DeepNest.Out.ByKey.LeafMap",
-			"Oneofs.ChB", "WithOneof.VarI", "Interleave.CInline"}, // branches of oneof groups that keep other branches in the schema,
+		DurationCustomType: DurationCastName,
+		TimeType:           SimTimeType,
+		DurationType:       SimDurationType,
+		ExcludeFields: []string{"Naming.Secret", "Naming.SecretList", "NamedLeaf.Hidden", "Naming.Other.Skip", "EmbP.EpHidden", "Nesting.PtrList.Attrs", "DeepNest.Out.ByKey.LeafMap",
+			"Oneofs.ChC", "WithOneof.VarI", "Interleave.CInline"}, // branches of oneof groups that keep other branches in the schema,
 		ComputedFields:              []string{"Scalars.FString", "Sink.Count", "Leaf.Num", "Sink.Spec.Name"},
 		RequiredFields:              []string{"Sink.Name", "Scalars.FInt32"},
 		SensitiveFields:             []string{"Sink.Data", "Leaf.Str"},
@@ -203,6 +206,12 @@ func Corpus() *Program {
 		Validators: map[string][]string{
 			"Sink.Name":     {"UseSimValidator()"},
 			"Scalars.FEnum": {"UseSimValidator()", "UseSimValidator()"},
+		},
+		// schema type overrides whose Go value type differs from the stock one (int32 instead of int64)
+		SchemaTypes: map[string]SchemaType{
+			"Oneofs.ChB":      SimInt32Override,
+			"Scalars.FSint32": SimInt32Override,
+			"Leaf.Num":        SimInt32Override, // Message.Field form: every occurrence of Leaf
 		},
 		InjectedFields: map[string][]Injected{
 			"Sink": {
